@@ -143,16 +143,16 @@ func (t *transport) callersAgree(section *ssa.Function, paramIdx int) {
 	c, r := t.c, t.c.R
 	writeBuf := c.P.Field("Conn", "writeBuf")
 	pmType := c.P.Field("PreparedMessage", "messageType")
+	hosts := map[*ssa.Function]bool{}
 	for _, g := range c.P.FuncList {
-		calls := false
-		for _, b := range g.Blocks {
-			for _, in := range b.Instrs {
-				if ci, ok := in.(ssa.CallInstruction); ok && ci.Common().StaticCallee() == section {
-					calls = true
-				}
+		if callsDirectly(g, section) {
+			for _, h := range c.hostsOf(g) { // a wrapper extracted around the call is judged inside its callers
+				hosts[h] = true
 			}
 		}
-		if !calls {
+	}
+	for _, g := range c.P.FuncList {
+		if !hosts[g] {
 			continue
 		}
 		ok, why := true, ""
